@@ -277,6 +277,17 @@ def assign_swap_exec(rng):
     L.append("V %d B 2 %d %d %d %d" % (t, it[0], it[1], it[1], it[2])); b1 = t; t += 1
     L.append("V %d B 0" % t); b2 = t; t += 1
     L.append("V %d R 1 %d %d" % (t, it[0], it[0])); r1 = t; t += 1
+    # Arrays / Lists whose element types have different sizes (plain structs of 5, 12, 16+ bytes, Ints, Strings) assigned onto
+    # each other while the target is populated (two elements and more): the target takes over the source's element type
+    conts = []
+    for kind, vals in (("X", blobs(rng, 3)), ("X", blobs(rng, 3, 12)), ("X", blobs(rng, 3, 5)), ("I", ints(rng, 4)), ("S", strings(rng, 3))):
+        d, toks = define(kind, vals, t); L += d; t += len(toks)
+        for ck in "AL":
+            n = rng.randint(2, len(toks))
+            L.append("V %d %s %d %s" % (t, ck, n, " ".join(str(x) for x in toks[:n]))); conts.append(t); t += 1
+    for _ in range(8):
+        a, b = rng.sample(conts, 2)
+        ops += ["assign %d %d" % (a, b), "hash %d" % a, "hash %d" % b]
     ops += ["assign %d %d" % (a2, a1), "assign %d %d" % (a1, l1), "assign %d %d" % (b2, b1), "assign %d %d" % (l1, a2),
             "hash %d" % a1, "hash %d" % l1, "hash %d" % b2, "hash %d" % b1, "hash %d" % r1]
     return L + ops
